@@ -1092,11 +1092,10 @@ def run(tier):
         for f in ("H", "kernel", "stride", "padding", "stripe_height", "net", "seed", "extent", "read_offset"):
             if f in detail and f not in full_key:
                 full_key[f] = detail[f]
-        res.violation(full_key, detail, "C10: " + what)
-        reported = True
-    if not reported or not b["ok"]:
-        if not b["ok"]:
-            vlib.report_broken_build(res, b, None)
+        if res.violation(full_key, detail, "C10: " + what):
+            reported = True      # a failing input that is not a recorded known finding
+    if not b["ok"] and not reported:
+        vlib.report_broken_build(res, b, None)
     if diffs or not okx:
         name = next(iter(diffs)) if diffs else "extraction"
         res.violation({"correspondence": name}, {"first_differences": diffs, "extraction_ok": okx, "log": xlog[-600:] if not okx else ""},
